@@ -143,6 +143,16 @@ func extraMods(eng *Engine, callee *ssa.Function, c *ssa.CallCommon, m *Modset) 
 		m.add(types.Typ[types.String], false, false)
 		m.ghost["csvrem"] = true
 		return true
+	case "google.golang.org/protobuf/proto.Unmarshal":
+		// writes the (pre-allocated) root message and freshly allocated sub-messages
+		if mi, ok := c.Args[1].(*ssa.MakeInterface); ok {
+			if pt, ok := mi.X.Type().Underlying().(*types.Pointer); ok {
+				m.add(pt.Elem(), false, false)
+				return true
+			}
+		}
+		m.top = true
+		return true
 	case "encoding/binary.Write":
 		m.ghost["hashL"] = true
 		m.ghost["hashP"] = true
@@ -159,6 +169,8 @@ func extraMods(eng *Engine, callee *ssa.Function, c *ssa.CallCommon, m *Modset) 
 func (fr *Frame) extraExternal(ins ssa.Instruction, fn *ssa.Function, c *ssa.CallCommon, args []Val, st *State) ([]Val, bool) {
 	fx := fr.fx
 	switch fn.String() {
+	case "google.golang.org/protobuf/proto.Unmarshal":
+		return fr.protoUnmarshal(ins, c, args, st), true
 	case "encoding/binary.Write":
 		fx.trusted["binary.Write(buf, LittleEndian, v): for a fixed-size v appends exactly binary.Size(v) bytes, an injective function of v and of v's type, and returns nil; returns an error (and writes nothing) for other types; bool, sized integers, floats and named types of those are fixed-size, int and uint are not"] = true
 		a := args[2].t
@@ -275,4 +287,86 @@ func (fx *FnCtx) frameCheckSliceWrite(fr *Frame, ins ssa.Instruction, st *State,
 }
 
 func (fx *FnCtx) sortFacts(fr *Frame, c *ssa.CallCommon, s Term, et types.Type, hOld, hNew Term, st *State) {
+}
+
+
+// proto.Unmarshal(b, m): assumed contract. err == nil iff pb_ok(bytes of b). On success the root message and
+// everything reachable from it is as the proto2 schema demands: required fields are set, elements of repeated
+// message fields are non-nil and pairwise distinct objects, and every sub-message was allocated by this call
+// (nothing reachable from the result was reachable before, so nobody else can alias it). The input is not modified.
+func (fr *Frame) protoUnmarshal(ins ssa.Instruction, c *ssa.CallCommon, args []Val, st *State) []Val {
+	fx := fr.fx
+	fx.trusted["proto.Unmarshal(b, m): err == nil iff pb_ok(b); on success required fields (proto2 'req') are non-nil, elements of repeated message fields are non-nil and pairwise distinct, all sub-messages are freshly allocated by the call; b is not modified; never panics"] = true
+	mi, ok := c.Args[1].(*ssa.MakeInterface)
+	if !ok {
+		unsupported("proto.Unmarshal into a message that is not converted to an interface at the call site")
+	}
+	root := fr.val(mi.X).t
+	rootT := mi.X.Type().Underlying().(*types.Pointer).Elem()
+	fx.ufun("pb_ok", []string{"String"}, "Bool")
+	fx.s.global("bytes_of", "(declare-fun bytes_of (Int) String)")
+	okc := fmt.Sprintf("(pb_ok (bytes_of (sobj %s)))", args[0].t)
+	a0 := st.alloc
+	// the root cell is rewritten
+	key, srt := fx.tm.heapKey(rootT)
+	h := fx.heap(st, key, srt)
+	nh := fx.s.freshConst("Hpb", "(Array Ref "+srt+")")
+	fx.s.assume("true", fmt.Sprintf("(forall ((r Ref)) (! (=> (not (= r %s)) (= (select %s r) (select %s r))) :pattern ((select %s r))))", root, nh, h, nh))
+	st.heaps[key] = nh
+	a1 := fx.s.freshConst("alloc", "Int")
+	fx.s.assume("true", "(>= "+a1+" "+a0+")")
+	st.alloc = a1
+	// schema facts for every message type reachable from the root
+	seen := map[string]bool{}
+	var visit func(t types.Type)
+	visit = func(t types.Type) {
+		k := typeKey(t)
+		if seen[k] {
+			return
+		}
+		seen[k] = true
+		stt, ok := t.Underlying().(*types.Struct)
+		if !ok {
+			return
+		}
+		key, srt := fx.tm.heapKey(t)
+		hh := fx.heap(st, key, srt)
+		si := fx.tm.structInfo(t)
+		window := fmt.Sprintf("(or (= r %s) (and (< %s (obj r)) (<= (obj r) %s)))", root, a0, a1)
+		for i := 0; i < stt.NumFields(); i++ {
+			f := stt.Field(i)
+			tag := stt.Tag(i)
+			if !strings.Contains(tag, "protobuf:") {
+				continue
+			}
+			sel := fmt.Sprintf("(%s (select %s r))", si.Fields[i].Sel, hh)
+			switch ft := f.Type().Underlying().(type) {
+			case *types.Pointer:
+				fresh := fmt.Sprintf("(or (= %s nilref) (and (< %s (obj %s)) (<= (obj %s) %s) (= (idx %s) 0)))", sel, a0, sel, sel, a1, sel)
+				req := "true"
+				if strings.Contains(tag, ",req,") {
+					req = not(eq(sel, "nilref"))
+				}
+				fx.s.assume(st.guard, fmt.Sprintf("(=> %s (forall ((r Ref)) (! (=> %s (and %s %s)) :pattern ((select %s r)))))", okc, window, fresh, req, hh))
+				if _, isMsg := ft.Elem().Underlying().(*types.Struct); isMsg {
+					visit(ft.Elem())
+				}
+			case *types.Slice:
+				pt, isPtr := ft.Elem().Underlying().(*types.Pointer)
+				if !isPtr {
+					continue
+				}
+				ekey, esrt := fx.tm.heapKey(ft.Elem())
+				eh := fx.heap(st, ekey, esrt)
+				el := func(k string) string { return fmt.Sprintf("(select %s (elemref %s %s))", eh, sel, k) }
+				// the backing array is fresh, elements are non-nil fresh objects, pairwise distinct
+				fx.s.assume(st.guard, fmt.Sprintf("(=> %s (forall ((r Ref)) (! (=> %s (or (= (scap %s) 0) (and (< %s (sobj %s)) (<= (sobj %s) %s)))) :pattern ((select %s r)))))", okc, window, sel, a0, sel, sel, a1, hh))
+				fx.s.assume(st.guard, fmt.Sprintf("(=> %s (forall ((r Ref) (k Int)) (! (=> (and %s (<= 0 k) (< k (slen %s))) (and (not (= %s nilref)) (< %s (obj %s)) (<= (obj %s) %s) (= (idx %s) 0))) :pattern (%s))))", okc, window, sel, el("k"), a0, el("k"), el("k"), a1, el("k"), el("k")))
+				fx.s.assume(st.guard, fmt.Sprintf("(=> %s (forall ((r Ref) (k Int) (j Int)) (! (=> (and %s (<= 0 k) (< k j) (< j (slen %s))) (not (= %s %s))) :pattern (%s %s))))", okc, window, sel, el("k"), el("j"), el("k"), el("j")))
+				visit(pt.Elem())
+			}
+		}
+	}
+	visit(rootT)
+	return []Val{{t: fx.errVal(st, okc)}}
 }
